@@ -93,7 +93,7 @@ REFUSED = ['ENCA\tHostName(%s)\t' % ('ab' * 1100),
 def run_compare(ctx, rep, cases, tags, observe, which=IMPLS, nontrivial=None, rule=None):
     """Run cases on the model and the implementation builds; compare through `observe`.
     -> {executor: results}.  BADCASE on either side excludes the case (and is counted)."""
-    if len(cases) >= 40 and cases[0].split('\t', 1)[0] in ('ENC', 'ENCA', 'ENCS', 'ENCW', 'ENCAW'):
+    if len(cases) >= 40 and sum(1 for c in cases[:400] if c.split('\t', 1)[0] in ('ENC', 'ENCA', 'ENCS', 'ENCW', 'ENCAW')) >= 10:
         # every ~120 cases a write the encoder must refuse (it panics, the harness catches it): whatever a caught panic
         # leaves behind on that thread would show in the cases that follow
         ext, keep = [], []
@@ -447,10 +447,26 @@ def many_record_cases(rng):
         out.append(('ENC\t%s\t' % txt.replace('C(%d,' % len(good), 'C(0,', 1), 'Ok ' + good.hex()))
         bad = ctrl_bytes(avp_rec(0, be(MT_CODE[mt], 2)) + seq * n + avp_rec(40, b'xy') + seq + avp_rec(9, b'\x01'))
         out.append(('DEC\t%d\t%s' % (rng.randrange(8), bad.hex()), 'Err [UnknownAvp(40),IncompleteAVP(9)]'))
+    # thousands of records of the other header-only kinds: vendor-specific, unassigned type, hidden (a decoder that recurses or
+    # allocates per such record has a depth nobody bounded)
+    n = 10900
+    v = rng.choice([9, 311, 65535])
+    b = ctrl_bytes(mt_record(rng) + avp_rec(7, b'', vendor=v) * n)
+    out.append(('DEC\t%d\t%s' % (rng.randrange(8), b.hex()), 'Err [%s]' % ','.join(['UnsupportedVendorId(%d)' % v] * n)))
+    t = rng.choice([20, 40, 999, 65535])
+    b = ctrl_bytes(mt_record(rng) + avp_rec(t, b'') * n)
+    out.append(('DEC\t%d\t%s' % (rng.randrange(8), b.hex()), 'Err [%s]' % ','.join(['UnknownAvp(%d)' % t] * n)))
+    mt = rng.choice(MT)
+    b = ctrl_bytes(avp_rec(0, be(MT_CODE[mt], 2)) + avp_rec(8, b'', h=1) * n)
+    out.append(('DEC\t%d\t%s' % (rng.randrange(8), b.hex()), 'Ok C(%d,1,2,3,4,[%s]) rem=0' % (len(b), ';'.join(['MessageType(%s)' % mt] + ['Hidden(8,)'] * n))))
+    b = avp_rec(7, b'', vendor=v) * 40000
+    out.append(('AVPS\t%s' % b.hex(), '[%s] rem=0' % ';'.join(['Err(UnsupportedVendorId(%d))' % v] * 40000)))
     return out
 
 
 def check_many_records(ctx, rep, channels=('DEC', 'ENC')):
+    if 'DEC' in channels:
+        channels = tuple(channels) + ('AVPS',)
     items = [(c, e) for (c, e) in many_record_cases(ctx.rng) if c.split('\t', 1)[0] in channels]
     res = ctx.runner.run([c for c, _ in items], IMPLS)
     for w in IMPLS:
@@ -632,6 +648,21 @@ def run_c03(ctx):
             if r2[w][i] != exp[i]:
                 rep.fail('decode_strict(encode(m)) != m[length := |encode(m)|]', case=c, executor=w,
                          got=r2[w][i][:400], expected=exp[i][:400])
+    # the encoded message as the first of many in one buffer: 64 KiB and more behind it (what is left in the reader then no
+    # longer fits 16 bits)
+    far, fexp = [], []
+    small = [i for i in range(len(dec)) if 40 <= len(dec[i]) <= 400][:3]
+    for i in small:
+        hx = dec[i].split('\t')[2]
+        n = len(hx) // 2
+        for sfx in sorted(set([65536 - n + d for d in (0, 1, 2, 11, 12, 13, n - 1, n, n + 1)] + [65535, 65536, 131072 - n + 3, 70000])):
+            far.append('DEC\t7\t' + hx + rbytes(rng, sfx).hex()); fexp.append(exp[i][:-len('rem=0')] + 'rem=%d' % sfx)
+    rf = run_compare(ctx, rep, far, ['followed_by_64KiB'] * len(far), lambda c, r: r)
+    for w in IMPLS:
+        for c, e, r in zip(far, fexp, rf[w]):
+            if r != e:
+                rep.fail('decode_strict(encode(m)) != m when 64 KiB or more follow the message in the reader', case=c[:200] + '...', executor=w,
+                         got=r[:300], expected=e[:300], trailing_octets=(len(c.split('\t')[2]) // 2))
     # single AVPs
     avs = []
     for k in KIND_LIST + ['Hidden']:
@@ -696,11 +727,29 @@ def run_c04(ctx):
         P, ln, tid, sid, nsnr, off, payload = v
         dec.append('DEC\t%d\t%s' % (rng.randrange(8), r[3:][len(pre[i]):]))
         exp.append('Ok %s rem=0' % data_text(P, ln, tid, sid, nsnr, None, payload[(off or 0):]))
+    # a message that carries its Length may be followed by more in the same reader: a few octets, or 64 KiB and more
+    nfar = 0
+    for i, (t, v) in enumerate(vals):
+        P, ln, tid, sid, nsnr, off, payload = v
+        r = r1['release'][i]
+        if ln is None or not r.startswith('Ok ') or len(payload) > 300:
+            continue
+        hx = r[3:][len(pre[i]):]
+        n = len(hx) // 2
+        sizes = [rng.choice([1, 2, 5, 40])] if (i % 3 == 0) else []
+        if nfar < 4 and off:
+            nfar += 1
+            sizes += sorted(set([65536 - n + d for d in (0, 1, 5, 6, 7, 8, 9, 10, 11, 12, n - 1, n)] + [65536, 70000]))
+        for k in sizes:
+            if k <= 0:
+                continue
+            dec.append('DEC\t%d\t%s' % (rng.randrange(8), hx + rbytes(rng, k).hex()))
+            exp.append('Ok %s rem=%d' % (data_text(P, ln, tid, sid, nsnr, None, payload[(off or 0):]), k))
     r2 = run_compare(ctx, rep, dec, ['dec'] * len(dec), lambda c, r: r)
     for w in IMPLS:
         for i, c in enumerate(dec):
             if r2[w][i] != exp[i]:
-                rep.fail('decode(encode(d)) != d[offset := None, data := data[n..]]', case=c, executor=w,
+                rep.fail('decode(encode(d)) != d[offset := None, data := data[n..]]', case=c[:600], executor=w,
                          got=r2[w][i][:400], expected=exp[i][:400])
     rep.notes['rule'] = ('data messages: 16 L/S/O/P combinations x sizes x offset sizes (0, |data|-1, middle) grid plus random values '
                          '(length absent or exact), ENC then DEC under a random option set')
@@ -1398,10 +1447,11 @@ def run_c11(ctx):
                 rep.fail('hide of a hidden AVP / reveal of a non-hidden AVP is not the identity', case=c[:400], executor=w, got=r[:300])
     # very long length paddings: thousands of cipher blocks (implementation only; the direct predicate needs no model)
     big = []
-    for lpn in (1100, 4090, 65400, 65522):
-        v = rand_avp(rng, rng.choice(['HostName', 'VendorName', 'AssignedTunnelId', 'ResultCode']), maxpay=200)
-        a = hide_args(rng)
-        big.append((v, a[0][:40], a[1], rbytes(rng, lpn), a[3]))
+    for lpn in (1100, 4090, 65400, 65500, 65510, 65519, 65520, 65522, 65530, 65535, 65536, 70000, 131050):
+        for kind in ('HostName', rng.choice(['VendorName', 'AssignedTunnelId', 'ResultCode', 'Challenge'])):
+            v = rand_avp(rng, kind, maxpay=200) if kind != 'HostName' else 'HostName(%s)' % rbytes(rng, rng.randrange(13, 60)).hex()
+            a = hide_args(rng)
+            big.append((v, a[0][:40], a[1], rbytes(rng, lpn), a[3]))
     hb = ctx.runner.run(['HIDE\t%s\t%s\t%s\t%s\t%s' % (v, s.hex(), rv.hex(), lp.hex(), ap.hex()) for (v, s, rv, lp, ap) in big], IMPLS)
     for w in IMPLS:
         ok = [i for i in range(len(big)) if hb[w][i].startswith('Ok Hidden(')]
@@ -1782,7 +1832,7 @@ def run_c16(ctx):
     cases, tags = [], []
     for x in range(65536):
         cases.append('AVPS\t' + avp_rec(0, be(x, 2)).hex()); tags.append('message_type_code')
-        cases.append('AVPS\t' + avp_rec(1, be(7, 2) + be(x, 2)).hex()); tags.append('error_type_code')
+        cases.append('AVPS\t' + avp_rec(1, be(x % 16, 2) + be(x, 2)).hex()); tags.append('error_type_code')   # under every result code 0..15
         cases.append('AVPS\t' + avp_rec(29, be(x, 2)).hex()); tags.append('proxy_authen_type_code')
         cases.append('CODE\t%d' % x); tags.append('result_code')
         cases.append('AVPS\t' + avp_rec(x, bytes(32)).hex()); tags.append('attribute_type')
@@ -1801,7 +1851,7 @@ def run_c16(ctx):
             elif one(mt).startswith('Ok('):
                 rep.fail('unassigned message type code %d accepted' % x, case=cases[6 * x], executor=w, got=mt[:200])
             if x < 9:
-                if one(et) != 'Ok(ResultCode(7,%s,-))' % ET[x]:
+                if one(et) != 'Ok(ResultCode(%d,%s,-))' % (x % 16, ET[x]):
                     rep.fail('error type code %d is not accepted as %s' % (x, ET[x]), case=cases[6 * x + 1], executor=w, got=et[:200])
             elif one(et).startswith('Ok('):
                 rep.fail('unassigned error type code %d accepted' % x, case=cases[6 * x + 1], executor=w, got=et[:200])
@@ -1819,6 +1869,29 @@ def run_c16(ctx):
                          case=cases[6 * x + 4], executor=w, got=at[:200])
             if one(rcw) != 'Ok(ResultCode(%d,-))' % x:
                 rep.fail('result code %d is not kept raw' % x, case=cases[6 * x + 5], executor=w, got=rcw[:200])
+    # the same code points again (a) in an order in which neighbours share the low octet (0x0006, 0x0106, 0x0206, ...: a decision
+    # remembered from the previous call under a truncated key would show), and (b) for the attribute type, in second position
+    # with the M bit clear (an unassigned type is an error wherever it stands and whatever its flags)
+    c2, t2 = [], []
+    for i in range(65536):
+        x = ((i & 0xff) << 8) | (i >> 8)
+        c2.append('AVPS\t' + avp_rec(0, be(x, 2)).hex()); t2.append('message_type_code/low_octet_order')
+        c2.append('AVPS\t' + avp_rec(29, be(x, 2)).hex()); t2.append('proxy_authen_type_code/low_octet_order')
+        c2.append('AVPS\t' + (avp_rec(9, be(i, 2)) + avp_rec(i, bytes(8), m=0, rsv=(i >> 4) & 15)).hex()); t2.append('attribute_type/second_no_m')
+    r2 = run_compare(ctx, rep, c2, t2, lambda c, r: r, nontrivial=lambda c, m: True)
+    for w in IMPLS:
+        R = r2[w]
+        for i in range(65536):
+            x = ((i & 0xff) << 8) | (i >> 8)
+            mt, pa, at = (strip_rem(R[3 * i + k])[1:-1] for k in range(3))
+            if mt.startswith('Ok(') != (x in ASSIGNED_MT) or (x in ASSIGNED_MT and mt != 'Ok(MessageType(%s))' % ASSIGNED_MT[x]):
+                rep.fail('message type code %d: accepted/rejected wrongly when decoded after a code with the same low octet' % x, case=c2[3 * i], executor=w, got=mt[:160])
+            if pa.startswith('Ok(') != (x < 6):
+                rep.fail('proxy authen type code %d: accepted/rejected wrongly when decoded after a code with the same low octet' % x, case=c2[3 * i + 1], executor=w, got=pa[:160])
+            known = 'Err(UnknownAvp(%d))' % i not in at
+            if known != (i in RFC_ATTR):
+                rep.fail('attribute type %d in second position with M clear: %s but RFC 2661 says %s' % (i, 'no UnknownAvp error' if known else 'UnknownAvp', 'assigned' if i in RFC_ATTR else 'unassigned'),
+                         case=c2[3 * i + 2], executor=w, got=at[:200])
     # re-encode: every accepted code encodes back to the same number; every named value to its RFC number
     enc, exp = [], []
     for x, n in ASSIGNED_MT.items():
@@ -1910,6 +1983,31 @@ def run_c17(ctx):
             b6, b7 = str(wd >> 6 & 1), str(wd >> 7 & 1)
             if got not in ((b6, b7), (b7, b6)):
                 rep.fail('accessor does not reflect exactly one bit of the word', case=cases[c0], executor=w, got=acc)
+    # the word is kept whichever implementation of the public Reader trait delivers it (the harness CheckedReader overrides no
+    # provided method of the trait), and whether it arrives in clear or hidden under a short or a very long secret
+    extra, want = [], []
+    for k in BITMASK:
+        for wd in words[:70] + [rng.getrandbits(32) for _ in range(30)]:
+            extra.append('AVPSR\t' + avp_rec(KINDS[k][0], be(wd, 4)).hex()); want.append('[Ok(%s(%d))] rem=0 viol=0' % (k, wd))
+    rx = run_compare(ctx, rep, extra, ['decode_word_other_reader'] * len(extra), lambda c, r: r)
+    for w in IMPLS:
+        for c, e, r in zip(extra, want, rx[w]):
+            if r != e:
+                rep.fail('bitmask word not kept when decoded through another implementation of the Reader trait', case=c, executor=w, got=r[:200], expected=e)
+    hid, hval = [], []
+    for k in BITMASK:
+        for sl in (0, 1, 16, 64, 300, 505, 506, 507, 512, 1009, 1024, 2000):
+            wd = rng.getrandbits(32)
+            sec, rv = rbytes(rng, sl), rbytes(rng, 4)
+            hid.append('HIDE\t%s(%d)\t%s\t%s\t%s\t%s' % (k, wd, sec.hex(), rv.hex(), rbytes(rng, rng.randrange(0, 9)).hex(), rbytes(rng, 16).hex()))
+            hval.append((k, wd, sec, rv))
+    rhid = run_compare(ctx, rep, hid, ['hide_word'] * len(hid), lambda c, r: r)
+    rev = ['REVEAL\t%s\t%s\t%s' % (rhid['model'][i][3:], sec.hex(), rv.hex()) for i, (k, wd, sec, rv) in enumerate(hval) if rhid['model'][i].startswith('Ok Hidden(')]
+    rrev = run_compare(ctx, rep, rev, ['reveal_word'] * len(rev), lambda c, r: r)
+    for w in IMPLS:
+        for c, (k, wd, sec, rv), r in zip(rev, hval, rrev[w]):
+            if r != 'Ok %s(%d)' % (k, wd):
+                rep.fail('bitmask word hidden by a conforming peer is not revealed unchanged (secret of %d octets)' % len(sec), case=c[:300], executor=w, got=r[:200])
     rep.exhaustive = True
     rep.notes['exhaustive_domain'] = 'bool^2 x 4 bitmask kinds (constructor/accessors); words are sampled (one-hot, complement, random)'
     rep.notes['rule'] = 'all four combinations for each of the four kinds; one-hot, complement-of-one-hot and random 32-bit words through accessors, decode, encode'
@@ -2090,6 +2188,12 @@ def pure_workload(ctx, n):
         cases.append('ENC\t%s\t' % rand_ctrl(rng, small=True))
         cases.append('ENCA\t%s\t' % rand_avp(rng, maxpay=60))
     cases += [c for c, _ in limited_cases(rng, n // 5)]
+    # writes the encoder refuses (a caught panic), each followed by ordinary ones: what the unwinding leaves behind on the thread
+    for k in range(max(3, n // 200)):
+        cases.append(REFUSED[k % len(REFUSED)])
+        cases.append('ENC\t%s\t' % rand_ctrl(rng, small=True))
+        cases.append('ENCA\t%s\t' % rand_avp(rng, maxpay=60))
+        cases.append('ENC\t%s\t' % data_text(*rand_data(rng)))
     for _ in range(n // 10):
         a = hide_args(rng)
         cases.append('HIDE\t%s\t%s\t%s\t%s\t%s' % (rand_avp(rng, allow_hidden=False, maxpay=60), a[0].hex(), a[1].hex(), a[2].hex(), a[3].hex()))
